@@ -218,7 +218,7 @@ PROPS = {
                      "phasing of calls with fewer than two alleles is not determined by the input (F8: cyvcf2 reports an indeterminate bit)"],
     ),
     "C03": dict(
-        units=[],
+        units=["GenPartitions", "GenEncoders", "GenBuffer", "GenScan"],
         props_files=["Props/C03.v"],
         driver="c03",
         rule="generated files (small BGZF blocks, so the index offers many partitions) against a 1-partition synchronous reference: "
